@@ -242,29 +242,6 @@ def ref_ip(addr):
     return b""
 
 
-def ref_nonce(cfg, conn_addr, method, url, args, realm, algo, ts):
-    """calculate_nonce re-stated (used to *plan* scripts; the oracle's binding rule below does not use it)"""
-    b = cfg["bind"]
-    t6 = (ts % U48).to_bytes(6, "big")
-    inp = t6
-    if cfg["rnd"]:
-        inp += b":" + cfg["rnd"]
-    if b == 0 and conn_addr:
-        inp += b":" + conn_addr
-    if b & BIND_IP and conn_addr:
-        inp += b":" + ref_ip(conn_addr)
-    if b == 0 or b & BIND_URI:
-        m = STD_METHODS.get(method)
-        inp += b":" + (bytes([1 if m == 2 else m]) if m is not None else method)
-    if b & BIND_URI:
-        inp += b":" + url
-    if b & BIND_ARGS:
-        inp += b":" + b"".join(b"\0\0" + k + b"\0" + (v or b"") for k, v in args)
-    if b == 0 or b & BIND_REALM:
-        inp += b":" + realm
-    return Hx(algo, inp) + t6.hex().encode()
-
-
 def ref_response(algo, user, realm, secret, method, uri, nonce, qop_txt, nc_txt, cnonce):
     """RFC 7616 3.4.1 / RFC 2069: secret = ("pw", password) or ("dg", H(A1) bytes)"""
     ha1 = Hx(algo, user + b":" + realm + b":" + secret[1]) if secret[0] == "pw" else secret[1].hex().encode()
@@ -381,7 +358,8 @@ class Oracle:
         for k in (b"realm", b"uri", b"nonce", b"response"):
             if g(k) is None:
                 return False, None, "missing " + k.decode()
-        if rawlen.get(b"realm", 0) > 65535 or rawlen.get(b"uri", 0) >= 65535 or rawlen.get(b"cnonce", 0) > 65535:
+        if (rawlen.get(b"realm", 0) > 65535 and (call["secret"][0] == "pw" or uh)) or rawlen.get(b"uri", 0) > 65535 \
+                or (qop is not None and rawlen.get(b"cnonce", 0) > 65535) or (ue is not None and rawlen.get(b"username*", 0) > 65535 + 6):
             return False, None, "size limit"
         if g(b"realm") != call["realm"]:
             return False, None, "realm"
@@ -419,6 +397,8 @@ class Oracle:
         if c >= GUARD or c in cur["used"] or c + 64 < hi:
             return False, None, "count used / behind window"
         # from here on the count is consumed (V2)
+        if rawlen.get(b"uri", 0) == 65535:
+            return False, c, "size limit"                  # the copy needs one byte more than the limit allows
         upath, qm, uquery = g(b"uri").partition(b"?")
         if ref_unescape(upath, cfg["strict"]) != req["url"] or \
                 norm_args(ref_args(uquery, cfg["strict"]) if qm else []) != norm_args(req["args"]):
@@ -622,7 +602,7 @@ class Session:
     def req_line(self, method, target, header, action):
         return "req %s %s %s %s" % (method.decode(), hx(target), hx(header) if header is not None else "-", action)
 
-    def plan(self):
+    def plan_prefix(self):
         rng = self.rng
         strict = rng.random() < 0.8
         bind = rng.choice([0, 0, 0, 1, 2, 6, 8, 9, 3, 15, 4, 10])
@@ -647,12 +627,19 @@ class Session:
         # issue a nonce inside a request for that resource (HEAD/GET are one class for the nonce)
         imethod = b"GET" if method == b"HEAD" and rng.random() < 0.7 else method
         req0 = self.reqinfo(imethod, target, strict)
-        nonce = ref_nonce(cfg, addr, imethod, req0["url"], req0["args"], realm, algo, now)
         self.emit(self.req_line(imethod, target, None, "issue %d %s" % (ALGOS.index(algo), hx(realm))),
-                  kind="issue", algo=algo, realm=realm, req=req0, plan_nonce=nonce)
-        st = {"cfg": cfg, "now": now, "addr": addr, "path": path, "args": args, "method": method, "target": target,
-              "user": user, "realm": realm, "pw": pw, "algo": algo, "nonce": nonce, "nc": 0, "strict": strict}
-        self.st = st
+                  kind="issue", algo=algo, realm=realm, req=req0)
+        self.st = {"cfg": cfg, "now": now, "addr": addr, "path": path, "args": args, "method": method, "target": target,
+                   "user": user, "realm": realm, "pw": pw, "algo": algo, "nonce": None, "nc": 0, "strict": strict}
+        return self
+
+    def plan_rest(self, nonce):
+        """second phase: `nonce` is what the real calculate_add_nonce made for the issue request (the scripts do not
+        depend on how the daemon derives its nonces)"""
+        rng = self.rng
+        st = self.st
+        st["nonce"] = nonce
+        algo = st["algo"]
         qop = rng.random() < 0.8
         st["qop"] = qop
         st["notation"] = rng.choice(["plain", "plain", "userhash", "ext"])
@@ -672,8 +659,13 @@ class Session:
             self.check(st, mutation=mname)
         # 3. count window / replay / clock
         if qop:
-            for _ in range(rng.choice([1, 2, 3])):
-                self.check(st, nc_mode=rng.choice(["replay", "skip", "back", "jump64", "far", "upper", "short", "long"]))
+            if rng.random() < 0.5:
+                modes = [rng.choice(["far", "jump64"])] + rng.sample(["edge64", "edge65", "edge63", "replay", "back"], 3)
+            else:
+                modes = [rng.choice(["replay", "skip", "back", "jump64", "far", "upper", "short", "long"])
+                         for _ in range(rng.choice([1, 2, 3]))]
+            for md in modes:
+                self.check(st, nc_mode=md)
             step = rng.choice([1, 4999, 5001, 89999, 90001, 299999, 300001, 1000000, U48 // 2, U48 - 1])
             st["now"] = (st["now"] + step) % U64
             self.emit("clock %d" % st["now"], kind="clock", now=st["now"])
@@ -710,6 +702,8 @@ class Session:
             c = hi + rng.choice([200, 1000, 70000])
         elif mode == "back" and hi > 3:
             c = rng.randint(max(1, hi - 70), hi - 1)
+        elif mode in ("edge63", "edge64", "edge65") and hi > 66:
+            c = hi - int(mode[4:])
         else:
             c = hi + 1
         txt = "%08x" % c
@@ -778,7 +772,9 @@ class Session:
                 req_method = m.get("method", method)
                 req_target = m.get("target", target)
                 conn_addr = m.get("conn")
-                api = "check3" if api not in ("check3", "digest3") else api
+                if rng.random() < 0.25:
+                    apis = self.api_plan(rng, algo, qop)
+                    api = apis[0]
         if conn_addr is not None:
             self.emit("conn " + hx(conn_addr), kind="conn", addr=conn_addr)
             st["addr"] = conn_addr
@@ -789,7 +785,7 @@ class Session:
         self.emit(self.req_line(req_method, req_target, header, act), kind="check", sem=sem if header is not None else None,
                   rawlen=rawlen, call=callo, req=self.reqinfo(req_method, req_target, st["strict"]), expect=expect,
                   mutation=mutation, api=api, nc=c)
-        if qop and nc_mode != "replay" and (nc_mode != "back"):
+        if qop and nc_mode not in ("replay", "back", "edge63", "edge64", "edge65"):
             st["nc"] = max(st["nc"], c) if c < GUARD else st["nc"]
 
     def action(self, api, call, algo):
@@ -913,15 +909,19 @@ def m_cnonce(s, st, sem, call, x):
 def m_uri(s, st, sem, call, x):
     rng = s.rng
     path, args = st["path"], list(st["args"])
-    k = rng.choice(["path", "path", "arg-value", "arg-drop", "arg-add", "arg-swap", "missing", "empty", "case"])
+    k = rng.choice(["path", "path", "prefix", "prefix", "arg-value", "arg-drop", "arg-add", "arg-swap", "missing", "empty", "case"])
     if k == "missing":
         del sem[b"uri"]
         return {"expect": {"WRONG_URI"}}
     if k == "empty":
         sem[b"uri"] = b""
         return {"expect": {"WRONG_URI"}}
-    if k == "path":
-        path = path + rng.choice([b"x", b"/", b"%"[0:0] + b"z"])
+    if k == "prefix":
+        if len(path) < 2:
+            return None
+        path = path[:rng.randint(1, len(path) - 1)]
+    elif k == "path":
+        path = path + rng.choice([b"x", b"/", b"z"])
     elif k == "case":
         p2 = path.swapcase()
         if p2 == path:
@@ -933,7 +933,14 @@ def m_uri(s, st, sem, call, x):
             args = [(b"q", b"1")]
         else:
             i = rng.randrange(len(args))
-            args[i] = (args[i][0], (args[i][1] or b"") + b"x")
+            kk, vv = args[i]
+            r_ = rng.random()
+            if r_ < 0.4 and vv:
+                args[i] = (kk, vv[:-1] + bytes([vv[-1] ^ 1]))     # same length, other value
+            elif r_ < 0.6 and kk:
+                args[i] = (kk[:-1] + bytes([kk[-1] ^ 1]), vv)     # same length, other key
+            else:
+                args[i] = (kk, (vv or b"") + b"x")
     elif k == "arg-drop":
         if not args:
             return None
@@ -1106,18 +1113,52 @@ def m_other_resource(s, st, sem, call, x):
     return {"expect": exp, "target": t2}
 
 
-def m_rendering_garbage(s, st, sem, call, x):
-    return None
+def m_other_realm(s, st, sem, call, x):
+    """an honest credential for another realm of the same server with a nonce issued for this realm"""
+    r2 = st["realm"] + b"-2"
+    sem[b"realm"] = r2
+    call["realm"] = r2
+    if st["notation"] == "userhash":
+        sem[b"username"] = Hx(st["algo"], st["user"] + b":" + r2)
+    sem[b"response"] = _reresp(st, sem, x, realm=r2)
+    return {"expect": {"NONCE_OTHER_COND"} if st["cfg"]["bind"] & BIND_REALM else None}
+
+
+def m_size(s, st, sem, call, x):
+    """the documented size limit of 65535 bytes per parameter (rare: the lines are long)"""
+    if s.rng.random() < 0.93:
+        return None
+    k = s.rng.choice(["realm", "cnonce", "uri", "uri-edge", "ext"])
+    if k == "realm":
+        sem[b"realm"] = st["realm"] + b"r" * s.rng.choice([65535, 65536, 70000])
+        return {"expect": {"TOO_LARGE", "WRONG_REALM"}}
+    if k == "cnonce":
+        if not st["qop"]:
+            return None
+        sem[b"cnonce"] = b"c" * s.rng.choice([65536, 70000])
+        return {"expect": {"TOO_LARGE"}}
+    if k == "uri":
+        sem[b"uri"] = x["uri"] + b"u" * 65536
+        return {"expect": {"TOO_LARGE"}}
+    if k == "uri-edge":
+        if not st["qop"]:
+            return None
+        sem[b"uri"] = (x["uri"] + b"u" * 65535)[:65535]
+        return {"expect": {"ERROR", "TOO_LARGE", "WRONG_URI"}}
+    if st["notation"] != "ext":
+        return None
+    sem[b"username*"] = sem[b"username*"] + b"e" * 65600
+    return {"expect": {"TOO_LARGE"}}
 
 
 MUTATIONS = {"response-flip": m_response_flip, "response-len": m_response_len, "nonce": m_nonce_flip, "nc-bad": m_nc_bad,
              "nc-other": m_nc_other, "nc-above-max": m_nc_above_max, "cnonce": m_cnonce, "uri": m_uri, "uri2": m_uri,
              "realm": m_realm, "username": m_username, "username2": m_username, "algorithm": m_algorithm, "qop": m_qop,
-             "password": m_password, "method": m_method, "other-client": m_other_client, "other-resource": m_other_resource}
-PRE_TABLE_MUTS = {"nonce", "nc-bad", "nc-above-max", "realm", "username", "username2", "algorithm", "qop"}
+             "password": m_password, "method": m_method, "other-client": m_other_client, "other-resource": m_other_resource, "size": m_size, "size2": m_size, "other-realm": m_other_realm}
+PRE_TABLE_MUTS = {"nonce", "nc-bad", "nc-above-max", "realm", "username", "username2", "algorithm", "qop", "size", "size2"}
 
 
-REASON_CLASSES = {"algorithm": {"WRONG_ALGO"}, "qop": {"WRONG_QOP"}, "username-presence": {"WRONG_USERNAME"},
+REASON_CLASSES = {"size limit2": set(), "algorithm": {"WRONG_ALGO"}, "qop": {"WRONG_QOP"}, "username-presence": {"WRONG_USERNAME"},
                   "userhash": {"WRONG_USERNAME"}, "username": {"WRONG_USERNAME"}, "username*": {"WRONG_USERNAME", "WRONG_HEADER"},
                   "realm": {"WRONG_REALM"}, "missing realm": {"WRONG_REALM"}, "missing uri": {"WRONG_URI"}, "uri empty": {"WRONG_URI"},
                   "uri": {"WRONG_URI"}, "missing nonce": {"NONCE_WRONG"}, "nonce format": {"NONCE_WRONG"},
@@ -1274,7 +1315,18 @@ def _worker(job):
         nseq, nreq = len(lines), len(lines)
         sample = lines[:2]
     else:
-        sessions = [Session(rng, thorough).plan() for _ in range(count)]
+        sessions = [Session(random.Random(rng.getrandbits(48)), thorough).plan_prefix() for _ in range(count)]
+        pre = [l for s_ in sessions for l in s_.lines]
+        po, prc, perr = vlib.run_lines(harness, pre)
+        if prc != 0 or len(po) != len(pre):
+            return ([("sanitizer", "dauth: harness aborted while issuing nonces", perr[-2000:], pre[:len(po) + 1][-8:], "dauth")],
+                    st, 0, 0, [])
+        k = 0
+        for s_ in sessions:
+            o = po[k + len(s_.lines) - 1].split()
+            k += len(s_.lines)
+            nonce = bytes.fromhex(o[-1]) if len(o) >= 2 and o[-2] in ("added", "refused") and re.match(r"^([0-9a-f]{2})+$", o[-1]) else b"0" * 44
+            s_.plan_rest(nonce)
         B = 150
         for i in range(0, len(sessions), B):
             f, s = run_batch(harness, driver, sessions[i:i + B])
@@ -1291,7 +1343,16 @@ def _worker(job):
 class Spec:
     props_module = "Mhd.Props.C12"
     lean_targets = ["Mhd.Props.C12", "drv_dauth"]
-    required_theorems = []
+    required_theorems = ["Mhd.C12.class_is_expected", "Mhd.C12.no_header", "Mhd.C12.ok_iff_rfc_valid",
+                         "Mhd.C12.expected_ok_iff_valid", "Mhd.C12.parsed_header", "Mhd.C12.digest_check_class",
+                         "Mhd.C12.digest_check_ok_iff", "Mhd.C12.rendering_independent", "Mhd.C12.accepted_is_valid",
+                         "Mhd.C12.reject_realm", "Mhd.C12.reject_username", "Mhd.C12.reject_uri",
+                         "Mhd.C12.reject_algorithm", "Mhd.C12.reject_qop", "Mhd.C12.response_is_rfc_value",
+                         "Mhd.C12.reject_expired", "Mhd.C12.reject_unregistered", "Mhd.C12.reject_other_conditions",
+                         "Mhd.C12.replay_rejected", "Mhd.C12.no_buffer_overflow", "Mhd.C12.legacy_yes_iff",
+                         "Mhd.C12.legacy_invalid_nonce_iff", "Mhd.C12.hash_is_implementation_md5",
+                         "Mhd.C12.hash_is_implementation_sha256", "Mhd.C12.hash_is_implementation_sha512_256",
+                         "Mhd.C12.hex_roundtrip"]
     trusted_base = ["Lean 4 kernel", "axioms: propext, Classical.choice, Quot.sound at most (audited per theorem)",
                     "hand-written model lean/Mhd/Model/Dauth.lean, DauthArgs.lean (+ C13 Nonce, C14 Auth*, C16 hash specs) tied to "
                     "digestauth.c by this run's correspondence",
@@ -1326,7 +1387,7 @@ class Spec:
                 fl = replay_lines(self.harness, self.driver, lines)
                 failures += fl
                 ncorpus += 1
-        nsess = (20000 if thorough else 2000) * (2 if boost else 1)
+        nsess = (100000 if thorough else 10000) * (2 if boost else 1)
         per = max(40, nsess // (3 * vlib.NCPU))
         jobs = [("sess", self.harness, self.driver, ctx.rng.getrandbits(48), per, thorough) for _ in range((nsess + per - 1) // per)]
         jobs.append(("pure", self.harness, self.driver, ctx.rng.getrandbits(48), 6000 if thorough else 1000, thorough))
